@@ -26,7 +26,9 @@ ASSUMPTIONS = ['each variable entry carries at most one upper and one lower boun
 
 
 def gen_case(rng, idx, tier):
-    spec = D.gen_lp(rng, tier, ints=False, outcome='optimal', front='ro')
+    # (a quarter of the models with 20-50 rows in 5-9 groups of mixed senses)
+    spec = D.gen_lp(rng, tier, ints=False, outcome='optimal', front='ro',
+                    many_rows=bool(rng.random() < 0.25))
     spec['solver'] = ['def', 'def', 'grb', 'eco'][int(rng.integers(4))]
     return spec
 
